@@ -106,6 +106,10 @@ func (db *SingleBucketBackend) ListBucket(bucket string, prefix *gofakes3.Prefix
 	defer db.lock.Unlock()
 
 	path, part, ok := prefix.FilePrefix()
+	if ok && path != "" && !validKey(path) {
+		// no key can live under such a prefix
+		return gofakes3.NewObjectList(), nil
+	}
 	if ok {
 		return db.getBucketWithFilePrefixLocked(bucket, path, part)
 	} else {
@@ -244,6 +248,11 @@ func (db *SingleBucketBackend) ensureMeta(
 }
 
 func (db *SingleBucketBackend) HeadObject(bucketName, objectName string) (*gofakes3.Object, error) {
+	if !validKey(objectName) {
+		// such a key can never have been stored
+		return nil, gofakes3.KeyNotFound(objectName)
+	}
+
 	if bucketName != db.name {
 		return nil, gofakes3.BucketNotFound(bucketName)
 	}
@@ -276,6 +285,11 @@ func (db *SingleBucketBackend) HeadObject(bucketName, objectName string) (*gofak
 }
 
 func (db *SingleBucketBackend) GetObject(bucketName, objectName string, rangeRequest *gofakes3.ObjectRangeRequest) (obj *gofakes3.Object, err error) {
+	if !validKey(objectName) {
+		// such a key can never have been stored
+		return nil, gofakes3.KeyNotFound(objectName)
+	}
+
 	if bucketName != db.name {
 		return nil, gofakes3.BucketNotFound(bucketName)
 	}
@@ -338,6 +352,9 @@ func (db *SingleBucketBackend) PutObject(
 	meta map[string]string,
 	input io.Reader, size int64,
 ) (result gofakes3.PutObjectResult, err error) {
+	if !validKey(objectName) {
+		return result, invalidKeyError(objectName)
+	}
 
 	if bucketName != db.name {
 		return result, gofakes3.BucketNotFound(bucketName)
@@ -353,6 +370,12 @@ func (db *SingleBucketBackend) PutObject(
 
 	objectFilePath := filepath.FromSlash(objectName)
 	objectDir := filepath.Dir(objectFilePath)
+
+	if conflict, err := keyConflict(db.fs, objectName); err != nil {
+		return result, err
+	} else if conflict {
+		return result, keyConflictError(objectName)
+	}
 
 	if objectDir != "." {
 		if err := db.fs.MkdirAll(objectDir, 0777); err != nil {
@@ -449,8 +472,20 @@ func (db *SingleBucketBackend) DeleteObject(bucketName, objectName string) (resu
 }
 
 func (db *SingleBucketBackend) deleteObjectLocked(bucketName, objectName string) error {
+	if !validKey(objectName) {
+		// such a key can never have been stored: nothing to delete
+		return nil
+	}
+
 	// S3 does not report an error when attemping to delete a key that does not exist, so
 	// we need to skip IsNotExist errors.
+	if isDir, err := afero.DirExists(db.fs, filepath.FromSlash(objectName)); err != nil {
+		return err
+	} else if isDir {
+		// a directory is a prefix of other keys, not a key: nothing to delete
+		return nil
+	}
+
 	if err := db.fs.Remove(filepath.FromSlash(objectName)); err != nil && !os.IsNotExist(err) {
 		return err
 	}
